@@ -41,6 +41,15 @@ class TLCResult:
             if ln.startswith("Error:") and "Invariant" not in ln and "Temporal properties" not in ln
         ]
 
+    def diagnosis(self) -> str:
+        """The first error block of the output (lines shortened), plus the tail."""
+        lines = self.out.splitlines()
+        for i, ln in enumerate(lines):
+            if ln.startswith("Error:") or "exception" in ln.lower():
+                blk = [x[:300] for x in lines[i : i + 14]]
+                return "\n".join(blk + ["..."] + [x[:300] for x in lines[-6:]])
+        return "\n".join(x[:300] for x in lines[-25:])
+
     def verdicts(self) -> dict[int, list[str]]:
         d: dict[int, list[str]] = {}
         for m in _V.finditer(self.out):
@@ -141,5 +150,5 @@ def must_violate(r: TLCResult, names: list[str], what: str) -> None:
     """A non-vacuity run: the defective variant of the machine has to break the named invariants."""
     missing = [n for n in names if n not in r.violated]
     if missing:
-        tail = "\n".join(r.out.splitlines()[-30:])
+        tail = r.diagnosis()
         raise MachineryError(f"non-vacuity run {what}: expected violation of {missing}, got {r.violated}\n{tail}")
